@@ -30,6 +30,7 @@ import (
 	"fmt"
 	"os"
 	"os/exec"
+	"runtime/pprof"
 	"sort"
 	"strconv"
 	"strings"
@@ -141,14 +142,17 @@ type caseCtx struct {
 	stat   map[string]int64
 	sets   map[string]map[string]bool
 	replay map[string]any
+	// the independent walker rejected the packet inside a name component
+	malformedName bool
 }
 
 var collapsedKey = "signed packet with a name component value of 253+ bytes does not decode (see C03)"
 
 func (c *caseCtx) viol(clause, key, detail string, extra map[string]any) {
-	// one root cause, one key: decode / well-formedness failures of packets that contain a
-	// component value of 253+ bytes are the C03 length-encoding finding
-	if c.d.BigComp() && clause == "C12.cover" && (strings.Contains(key, "does not decode") || strings.Contains(key, "not a well-formed") || strings.Contains(key, "decode of a signed packet fails")) {
+	// one root cause, one key: contiguous-decode / well-formedness failures of packets that
+	// contain a component value of 253+ bytes are the C03 length-encoding finding (segmented-decode
+	// failures are never collapsed: they only run after the contiguous decode succeeded)
+	if c.malformedName && c.d.BigComp() && clause == "C12.cover" && (strings.Contains(key, "does not decode") || strings.Contains(key, "not a well-formed")) {
 		detail = key + " :: " + detail
 		key = collapsedKey
 	}
@@ -357,6 +361,7 @@ func evalCase(s *space, idx int, startBit int, careful bool, thorough bool, dead
 		fam = b.SignerSp.Name
 	}
 	root, werr := pktgen.Walk(B)
+	cc.malformedName = werr != "" && (strings.Contains(werr, "0x7/") || strings.Contains(werr, "0x1a/"))
 	if werr != "" {
 		cc.viol("C12.cover", "packet is not a well-formed TLV: "+werr, "independent walker: "+werr, nil)
 		root = nil
@@ -368,6 +373,9 @@ func evalCase(s *space, idx int, startBit int, careful bool, thorough bool, dead
 		return
 	}
 	signed := b.Rec != nil && b.Rec.Asked
+	if signed || (d.Interest && d.PaySize != -1) {
+		cc.stat["nontrivial_cases"]++
+	}
 	hasValidator := signed && b.SignerSp.Validate != nil
 	var lay layout
 	if root != nil {
@@ -387,9 +395,15 @@ func evalCase(s *space, idx int, startBit int, careful bool, thorough bool, dead
 		}
 	}
 
+	// A run resumed after a worker death (startBit > 0) has already evaluated the clauses below
+	// for this case in the run that died; only the bit flips are continued.
+	resumed := startBit > 0
+
 	// ---- C12.cover
 	if signed {
 		cc.stat["signed_packets"]++
+	}
+	if signed && !resumed {
 		want := b.Rec.Covered
 		if !bytes.Equal(b.SigCov.Join(), want) {
 			cc.viol("C12.cover", kind(&d)+": Encoded"+kind(&d)+".SigCovered differs from the bytes handed to the signer", fam, nil)
@@ -480,6 +494,8 @@ func evalCase(s *space, idx int, startBit int, careful bool, thorough bool, dead
 	// ---- C12.digest (static part)
 	if d.Interest && d.PaySize != -1 && root != nil {
 		cc.stat["interests_with_parameters"]++
+	}
+	if d.Interest && d.PaySize != -1 && root != nil && !resumed {
 		switch {
 		case lay.param == nil:
 			cc.viol("C12.digest", "Interest built with parameters has no ApplicationParameters element", "", nil)
@@ -518,8 +534,8 @@ func evalCase(s *space, idx int, startBit int, careful bool, thorough bool, dead
 	if len(regs) == 0 {
 		return
 	}
-	if b.SignerSp != nil && b.SignerSp.Slow && !thorough && len(c.Devs) > 0 {
-		cc.stat["tamper_skipped_slow_signer_quick_tier"]++
+	if b.SignerSp != nil && b.SignerSp.Slow && ((!thorough && len(c.Devs) > 0) || len(c.Devs) > 1) {
+		cc.stat["tamper_skipped_slow_signer"]++
 		return
 	}
 	// byte set, first region wins the label
@@ -622,6 +638,11 @@ func evalCase(s *space, idx int, startBit int, careful bool, thorough bool, dead
 func childMain() {
 	out = bufio.NewWriterSize(os.Stdout, 1<<16)
 	defer out.Flush()
+	if pf := os.Getenv("C12_CPUPROFILE"); pf != "" {
+		f, _ := os.Create(pf)
+		pprof.StartCPUProfile(f)
+		defer pprof.StopCPUProfile()
+	}
 	parts := strings.Split(os.Getenv("C12_WORKER"), "/")
 	shard, _ := strconv.Atoi(parts[0])
 	nshard, _ := strconv.Atoi(parts[1])
@@ -639,6 +660,16 @@ func childMain() {
 	}
 	s := buildSpace(thorough)
 	capped := false
+	if only := os.Getenv("C12_ONLY"); only != "" { // --replay: one case, named by its label
+		for idx, c := range s.cases {
+			if s.sp.Label(c) == only {
+				emit(msg{T: "case", I: idx})
+				evalCase(s, idx, 0, false, thorough, deadline)
+			}
+		}
+		emit(msg{T: "done"})
+		return
+	}
 	for idx := shard; idx < len(s.cases); idx += nshard {
 		if idx < resumeIdx {
 			continue
@@ -657,6 +688,45 @@ func childMain() {
 	emit(msg{T: "done", Capped: capped})
 }
 
+// replayMain re-executes the single case named in a replay file in one ulimit-ed worker and
+// prints the violations it reports. Exit 1 if the recorded (clause,key) shows up again.
+func replayMain(file string) {
+	raw, err := os.ReadFile(file)
+	if err != nil {
+		report.Fatal("cannot read replay %s: %v", file, err)
+	}
+	var r struct {
+		Clause, Key string
+		Replay      struct {
+			Case string `json:"case"`
+		} `json:"replay"`
+	}
+	if json.Unmarshal(raw, &r) != nil || r.Replay.Case == "" {
+		report.Fatal("replay %s: no case label", file)
+	}
+	cmd := exec.Command("bash", "-c", `ulimit -v 2000000; exec "$0"`, os.Args[0])
+	cmd.Env = append(os.Environ(), "C12_WORKER=0/1", "C12_ONLY="+r.Replay.Case, "C12_DEADLINE=9999999999")
+	outb, _ := cmd.Output()
+	again, seen := false, map[string]bool{}
+	for _, line := range strings.Split(string(outb), "\n") {
+		var m msg
+		if json.Unmarshal([]byte(line), &m) != nil || m.T != "viol" || seen[m.Clause+m.Key] {
+			continue
+		}
+		seen[m.Clause+m.Key] = true
+		fmt.Printf("REPLAY clause=%s key=%q :: %s\n", m.Clause, m.Key, m.Detail)
+		if m.Clause == r.Clause && m.Key == r.Key {
+			again = true
+		}
+	}
+	if again {
+		fmt.Printf("REPLAY-RESULT reproduced clause=%s key=%q\n", r.Clause, r.Key)
+		os.Exit(1)
+	}
+	fmt.Printf("REPLAY-RESULT not reproduced (clause=%s key=%q)\n", r.Clause, r.Key)
+	os.Exit(0)
+}
+
 // ---------------------------------------------------------------------------------------------
 // parent
 
@@ -670,11 +740,19 @@ func main() {
 		childMain()
 		return
 	}
+	for i, a := range os.Args {
+		if a == "--replay" && i+1 < len(os.Args) {
+			replayMain(os.Args[i+1])
+		}
+	}
 	rep := report.New("C12", "exploration")
 	thorough := rep.Thorough()
-	budget := 95 * time.Second
+	budget := 80 * time.Second
 	if thorough {
-		budget = 26 * time.Minute
+		budget = 25 * time.Minute
+	}
+	if v, err := strconv.Atoi(os.Getenv("VERIF_BUDGET_S")); err == nil && v > 0 {
+		budget = time.Duration(v) * time.Second // development aid: shorter/longer cap
 	}
 	deadline := time.Now().Add(budget)
 	s := buildSpace(thorough)
@@ -703,7 +781,7 @@ func main() {
 		resume, careful := "", ""
 		restarts := 0
 		for {
-			cmd := exec.Command("bash", "-c", `ulimit -v 4000000; exec "$0"`, os.Args[0])
+			cmd := exec.Command("bash", "-c", `ulimit -v 2000000; exec "$0"`, os.Args[0])
 			cmd.Env = append(os.Environ(), fmt.Sprintf("C12_WORKER=%d/%d", shard, W), "C12_RESUME="+resume, "C12_CAREFUL="+careful,
 				fmt.Sprintf("C12_DEADLINE=%d", deadline.Unix()), "GOMAXPROCS=2")
 			var stderr bytes.Buffer
@@ -824,8 +902,8 @@ func main() {
 	}
 	cov := report.Coverage{
 		"evaluations":         stat["decodes"],
-		"distinct_nontrivial": stat["signed_packets"] + stat["interests_with_parameters"],
-		"rule":                "packets built by the real API that carry a signature computed by a shipped signer, or parameters with a digest (each counted once per case), and whose covered bytes / digest were compared and tampered with",
+		"distinct_nontrivial": stat["nontrivial_cases"],
+		"rule":                "enumerated cases (pairwise different descriptions) for which the real API built a packet that carries a signature computed by a shipped signer and/or application parameters with a digest, whose contiguous decode succeeded and whose covered bytes / digest were then compared, segmented and tampered with",
 		"samples":             samples.List(),
 		"exhaustive":          !capped,
 		"cases_enumerated":    len(s.cases),
@@ -838,7 +916,7 @@ func main() {
 		"bounds": map[string]any{
 			"shapes":       "bases {Interest all-optional-fields, Interest minimal+parameters, Data plain, Data all-MetaInfo+content} x every signer mode, plus two unsigned Interests with parameters; every <=1 deviation (thorough: <=2) of the C03 generator except the signer dimension",
 			"segmentation": "C12.cover: every 1-cut (packets >1200 B: cuts within 2 bytes of element offsets), every 2-cut for packets <=100 B (thorough, <=1 deviation: <=400 B) else all pairs of element offsets, every 3-cut for packets <=56 B (thorough, <=1 deviation: <=112 B) else outer-header-end + every pair of element offsets",
-			"tamper":       "every bit of the signed portion, SignatureValue element, ApplicationParameters element and digest component when these total <=700 bytes; above: every bit of the bytes within 4 of an element boundary and one bit of every 251st (thorough, sha256/hmac/unsigned: 7th) other byte; P-521 quick tier: base shapes only, bits 0 and 7 of every byte",
+			"tamper":       "every bit of the signed portion, SignatureValue element, ApplicationParameters element and digest component when these total <=700 bytes; above: every bit of the bytes within 4 of an element boundary and one bit of every 251st (thorough, sha256/hmac/unsigned: 7th) other byte; P-521 (verification ~1 ms): quick tier base shapes only with bits 0 and 7 of every byte, thorough tier <=1-deviation shapes with every bit",
 		},
 	}
 	if capped {
